@@ -52,13 +52,14 @@ func uu(prefix string, n int) string {
 }
 
 var (
-	uR  = []string{uu("1", 1), uu("1", 2)}
-	uR2 = []string{uu("2", 1)}
-	uRW = []string{uu("3", 1)}
-	uN1 = []string{uu("a", 1), uu("a", 2), uu("a", 3)}
-	uN2 = []string{uu("b", 1), uu("b", 2)}
-	uN3 = []string{uu("c", 1), uu("c", 2)}
-	uPR = []string{uu("4", 1)}
+	uR   = []string{uu("1", 1), uu("1", 2)}
+	uR2  = []string{uu("2", 1)}
+	uRW  = []string{uu("3", 1)}
+	uN1  = []string{uu("a", 1), uu("a", 2), uu("a", 3)}
+	uN2  = []string{uu("b", 1), uu("b", 2)}
+	uN3  = []string{uu("c", 1), uu("c", 2)}
+	uPR  = []string{uu("4", 1)}
+	uPR2 = uu("4", 2)
 )
 
 func short(u string) string {
@@ -229,6 +230,19 @@ func srefAlphabet(level int) []dbx.Txn {
 		opUpdate("R", uR[0], rm.Row{"wmap": rm.MapOf(rm.S("k1"), rm.U(n1[1]), rm.S("k2"), rm.U(n1[1]))}), opUpdate("R", uR[0], rm.Row{"wmap": rm.MapOf(rm.S("k1"), rm.U(n1[0]), rm.S("k2"), rm.U(n1[1]))}), opUpdate("R", uR[0], rm.Row{"cnt": one(8)}))
 	add("R r1.wset a1 removed then added back + cnt:=8",
 		opMutate("R", uR[0], "wset", "delete", uset(n1[0])), opMutate("R", uR[0], "wset", "insert", uset(n1[0])), opUpdate("R", uR[0], rm.Row{"cnt": one(8)}))
+	// weak references to non-root rows the same transaction inserts and nothing references strongly (collected at once)
+	add("ins N1 a1 unreferenced + R r1.wset+=a1,wopt:=a1", opInsert("N1", n1[0], rm.Row{"name": str("ghost")}), opMutate("R", uR[0], "wset", "insert", uset(n1[0])), opUpdate("R", uR[0], rm.Row{"wopt": uset(n1[0])}))
+	add("ins N3 c1->c2 unreferenced + R r1.w3:=[c1,c2]", opInsert("N3", uN3[0], rm.Row{"name": str("c1"), "peer": uset(uN3[1])}), opInsert("N3", uN3[1], rm.Row{"name": str("c2")}), opUpdate("R", uR[0], rm.Row{"w3": uset(uN3[0], uN3[1])}))
+	add("ins RW w1.w1:=[new unreferenced a1]", opInsert("N1", n1[0], rm.Row{"name": str("ghost")}), opInsert("RW", uRW[0], rm.Row{"w1": uset(n1[0])}))
+	// a reference column holding the UUID of a row of ANOTHER table than the one it refers to (no such row in its own table)
+	add("R r1.wset+=b1 (an N2 row)", opMutate("R", uR[0], "wset", "insert", uset(uN2[0])))
+	add("R r1.wset+=b1 (an N2 row) + del N2 b1", opMutate("R", uR[0], "wset", "insert", uset(uN2[0])), opDelete("N2", uN2[0]))
+	add("R r1.wset+=b1 (an N2 row) + N1 a1.next:=[]", opMutate("R", uR[0], "wset", "insert", uset(uN2[0])), opUpdate("N1", n1[0], rm.Row{"next": uset()}))
+	add("R r1.wopt:=p1 (a PR row) + del PR p1", opUpdate("R", uR[0], rm.Row{"wopt": uset(uPR[0])}), opDelete("PR", uPR[0]))
+	// unique values exchanged between two committed rows (every intermediate step duplicates a value, the final state does not)
+	add("ins PR p1,p2", opInsert("PR", uPR[0], rm.Row{"name": str("peer")}), opInsert("PR", uPR2, rm.Row{"name": str("peer2")}))
+	add("swap PR p1.name<->p2.name", opUpdate("PR", uPR[0], rm.Row{"name": str("peer2")}), opUpdate("PR", uPR2, rm.Row{"name": str("peer")}))
+	add("PR p2.name:=peer after p1.name:=free", opUpdate("PR", uPR[0], rm.Row{"name": str("free")}), opUpdate("PR", uPR2, rm.Row{"name": str("peer")}))
 	// mutations naming several elements, of which the column holds some, all or none (depends on the state they meet)
 	add("R r1.sset-={a1,a2}", opMutate("R", uR[0], "sset", "delete", uset(n1[0], n1[1])))
 	add("R r1.wset-={a1,a2}", opMutate("R", uR[0], "wset", "delete", uset(n1[0], n1[1])))
